@@ -145,13 +145,15 @@ func (fc *fnCtx) instr(in ssa.Instruction) {
 		sv := &val{k: kSlice, constLen: constOf(ln), t: []string{ref, z64, ln, cp}}
 		fc.classAssume(sv, x.Type(), fc.curR)
 		fc.set(x, sv)
-	case *ssa.MakeMap, *ssa.MakeChan:
+	case *ssa.MakeMap:
+		fc.makeMap(x)
+	case *ssa.MakeChan:
 		ref := fc.alloc("mk", nil)
-		fc.set(x.(ssa.Value), &val{k: kOpaque, t: []string{ref}})
+		fc.set(x, &val{k: kOpaque, t: []string{ref}})
 	case *ssa.MakeClosure:
 		ref := fc.alloc("clo", nil)
 		cv := &val{k: kOpaque, t: []string{ref}}
-		cl := &closureInfo{fn: x.Fn.(*ssa.Function)}
+		cl := &closureInfo{fn: x.Fn.(*ssa.Function), mk: x}
 		for _, b := range x.Bindings {
 			cl.bindings = append(cl.bindings, fc.v(b))
 		}
@@ -264,14 +266,16 @@ func (fc *fnCtx) instr(in ssa.Instruction) {
 		g.unmodelled["select"]++
 		fc.set(x, g.newVal("sel", x.Type()))
 	case *ssa.MapUpdate:
-		m := fc.v(x.Map)
-		fc.oblige("nilmap", fc.srcOr(x.Pos(), "index", x.Map.Name()+"[..]="), fmt.Sprintf("(not (= %s 0))", m.t[0]), x.Pos())
+		fc.mapUpdate(x)
 	case *ssa.Lookup:
 		if isString(x.X.Type()) {
 			a := fc.v(x.X)
 			idx := zext(fc.v(x.Index), 64)
 			fc.oblige("index", fc.srcOr(x.Pos(), "index", x.X.Name()+"["+x.Index.Name()+"]"), fmt.Sprintf("(and (bvsle %s %s) (bvslt %s %s))", z64, idx, idx, a.t[2]), x.Pos())
 			fc.set(x, fc.named(x.Name(), fc.load(types.Typ[types.Uint8], a.t[0], fmt.Sprintf("(bvadd %s %s)", a.t[1], idx))))
+			return
+		}
+		if fc.mapLookup(x) {
 			return
 		}
 		v := g.newVal("lookup", x.Type())
@@ -282,6 +286,7 @@ func (fc *fnCtx) instr(in ssa.Instruction) {
 	case *ssa.Next:
 		v := g.newVal("next", x.Type())
 		fc.wfRefAssume(v, fc.curAC, fc.curR)
+		fc.mapNext(x, v)
 		fc.set(x, v)
 	case *ssa.TypeAssert:
 		src := fc.v(x.X)
@@ -984,7 +989,9 @@ func (fc *fnCtx) loadH(h heap, t types.Type, ref, off string, guard string) *val
 		return v
 	case *types.Map, *types.Signature, *types.Chan:
 		g.wfInstances("HPr", ref, off, guard)
-		return &val{k: kOpaque, ty: t, t: []string{sel(h["HPr"], ref, off)}}
+		ov := &val{k: kOpaque, ty: t, t: []string{sel(h["HPr"], ref, off)}}
+		fc.classAssume(ov, t, guard)
+		return ov
 	}
 	g.unmodelled["load:"+t.String()]++
 	return g.newVal("ld", t)
